@@ -84,6 +84,7 @@ func NewEngine(repo, verifDir string) (*Engine, error) {
 		}
 	}
 	eng.contracts = cs
+	eng.checkGhostFrames()
 	cfg := &packages.Config{Mode: packages.LoadAllSyntax, Dir: repo, BuildFlags: []string{"-tags=verif"}, Overlay: overlay,
 		Env: append(os.Environ(), "GOFLAGS=-mod=mod", "GOPROXY=off", "GOSUMDB=off", "GOTOOLCHAIN=local")}
 	pkgs, err := packages.Load(cfg, "./lib/...")
@@ -678,4 +679,60 @@ func dedup(xs []string) []string {
 func newExec(eng *Engine, fn *ssa.Function, c *FuncContract) *Exec {
 	return &Exec{hc: heapConsts, usedInv: map[string]bool{}, specMemo: map[string]Value{}, eng: eng, topFn: fn, topC: c, assumeSeen: map[int]bool{}, warnSeen: map[string]bool{}, nameCount: map[string]int{},
 		abstracted: map[string]bool{}, inlined: map[string]bool{}, usedContr: map[string]bool{}, assumedTerm: map[string]bool{}, assertHit: map[int]bool{}, pointSetHit: map[int]bool{}, budget: 6000}
+}
+
+// checkGhostFrames: ghost variables survive every havoc unless a contract names them, so a contract with an explicit
+// modifies clause whose postcondition speaks about the new value of a ghost variable must name that variable (otherwise
+// applying the contract at a call assumes both "unchanged" and what the postcondition says: a vacuous caller).
+func (eng *Engine) checkGhostFrames() {
+	for _, key := range eng.contracts.Order {
+		c := eng.contracts.Funcs[key]
+		if c == nil || !c.HasMod {
+			continue
+		}
+		named := map[string]bool{}
+		for _, gs := range c.GhostSets {
+			named[gs.Var] = true
+		}
+		for _, mt := range c.Modifies {
+			if mt.E != nil && mt.E.Kind == "ident" {
+				named[mt.E.Name] = true
+			}
+			if strings.HasPrefix(mt.Key, "GH:") {
+				named[strings.TrimPrefix(mt.Key, "GH:")] = true
+			}
+		}
+		seen := map[string]bool{}
+		for _, en := range c.Ensures {
+			now, old := map[string]bool{}, map[string]bool{}
+			var walk func(e *Expr, inOld bool)
+			walk = func(e *Expr, inOld bool) {
+				if e == nil {
+					return
+				}
+				if e.Kind == "ident" {
+					if _, ok := eng.contracts.Ghosts[e.Name]; ok {
+						if inOld {
+							old[e.Name] = true
+						} else {
+							now[e.Name] = true
+						}
+					}
+				}
+				o := inOld || (e.Kind == "call" && ((e.X != nil && e.X.Kind == "ident" && e.X.Name == "old") || e.Name == "old"))
+				walk(e.X, o)
+				for _, a := range e.Args {
+					walk(a, o)
+				}
+			}
+			walk(en.E, false)
+			// a clause relating the new value of a ghost variable to its old value
+			for g := range now {
+				if old[g] && !named[g] && !seen[g] {
+					seen[g] = true
+					eng.bindingErrors = append(eng.bindingErrors, fmt.Sprintf("%s: a postcondition relates ghost variable %s to its old value but modifies does not name it (callers would assume it unchanged as well)", key, g))
+				}
+			}
+		}
+	}
 }
